@@ -172,7 +172,9 @@ impl Linter {
     // Run `ban-unknown-rule-code`
     diagnostics.extend(context.ban_unknown_rule_code(&all_rules));
     // Run `ban-unused-ignore`
-    diagnostics.extend(context.ban_unused_ignore(&enabled_rules));
+    if enabled_rules.contains("ban-unused-ignore") {
+      diagnostics.extend(context.ban_unused_ignore(&enabled_rules));
+    }
 
     // Finally sort by position the diagnostics originates on then by code
     diagnostics.sort_by(|a, b| {
